@@ -35,4 +35,20 @@ func init() {
 		}
 		return c, cs
 	}
+	// the clients of a clock as the service builds them for a given list of auth modes
+	worlds.Root.SCIONClockClients = func(log *slog.Logger, localAddr, remoteAddr udp.UDPAddr, authModes []string, ntskeServer string) []*client.SCIONClient {
+		c := newNTPReferenceClockSCION(log, "", localAddr, remoteAddr, 0, authModes, ntskeServer, true)
+		var cs []*client.SCIONClient
+		v := reflect.ValueOf(c).Elem()
+		for i := 0; i < v.NumField(); i++ {
+			f := v.Field(i)
+			f = reflect.NewAt(f.Type(), unsafe.Pointer(f.UnsafeAddr())).Elem()
+			if (f.Kind() == reflect.Array || f.Kind() == reflect.Slice) && f.Type().Elem() == reflect.TypeOf((*client.SCIONClient)(nil)) {
+				for j := 0; j < f.Len(); j++ {
+					cs = append(cs, f.Index(j).Interface().(*client.SCIONClient))
+				}
+			}
+		}
+		return cs
+	}
 }
